@@ -427,6 +427,75 @@ func run(seed int64, n int, dir string, _ []string) {
 			o.Count("distinct_over_grouped_checks")
 		}
 
+		// under a session datetime format, values that are the same instant in different spellings share a bucket in
+		// GROUP BY, DISTINCT and PARTITION BY alike (the key of every bucket kind is built from the same conversion)
+		if t%5 == 2 {
+			layout := []string{"%c/%e/%y", "%b %e, %Y", "%Y%m%d", "%e.%c.%Y %H:%i"}[(t/5)%4]
+			fam := map[string][][]string{
+				"%c/%e/%y":       {{"2/3/12", "02/03/12", "2/03/12"}, {"2/4/12", "02/04/12"}, {"12/25/11"}},
+				"%b %e, %Y":      {{"Feb 3, 2012", "Feb 03, 2012", "FEB 3, 2012"}, {"Feb 4, 2012"}, {"Dec 25, 2011", "Dec 25, 2011 "}},
+				"%Y%m%d":         {{"20120203", " 20120203"}, {"20120204"}, {"20111225", "20111225"}},
+				"%e.%c.%Y %H:%i": {{"3.2.2012 09:05", "03.02.2012 09:05"}, {"3.2.2012 9:06"}, {"25.12.2011 00:00", "25.12.2011 0:00"}},
+			}[layout]
+			_ = pr.P.Tx.SetFlag(option.DatetimeFormatFlag, layout)
+			setStrict(false)
+			type fr struct {
+				fam int
+				sp  string
+			}
+			var frs []fr
+			size := map[int]int{}
+			for fi, spellings := range fam {
+				for _, sp := range spellings {
+					for rep := 0; rep < 1+g.Intn(2); rep++ {
+						frs = append(frs, fr{fi, sp})
+						size[fi]++
+					}
+				}
+			}
+			for k := len(frs) - 1; k > 0; k-- {
+				x := g.Intn(k + 1)
+				frs[k], frs[x] = frs[x], frs[k]
+			}
+			rows := make([][]value.Primary, len(frs))
+			want := map[int]int{}
+			for k, f := range frs {
+				rows[k] = []value.Primary{value.NewString(f.sp)}
+				want[k] = size[f.fam]
+			}
+			if err := pr.DeclareTable("dtt", []string{"k"}, rows); err != nil {
+				o.Law("declare_table_error", err.Error())
+			}
+			for _, q := range []string{
+				"SELECT id, COUNT(*) OVER (PARTITION BY k) AS n FROM dtt",
+				"SELECT id, (SELECT COUNT(*) FROM dtt d2 WHERE d2.k = dtt.k) AS n FROM dtt",
+				"SELECT d1.id, COUNT(*) AS n FROM dtt d1 JOIN dtt d2 ON d1.k = d2.k GROUP BY d1.id",
+			} {
+				v, err := pr.Query(q)
+				if err != nil {
+					o.Law("group_sql_error", err.Error())
+					continue
+				}
+				for i := 0; i < v.RecordLen(); i++ {
+					rid, _ := strconv.Atoi(hc.StrOf(hc.ViewCell(v, i, 0)))
+					if got := hc.StrOf(hc.ViewCell(v, i, 1)); got != strconv.Itoa(want[rid]) {
+						o.Law("datetime_spellings_split_bucket", map[string]interface{}{"datetime_format": layout, "sql": q, "id": rid, "got": got, "want": want[rid]})
+					}
+				}
+			}
+			for _, q := range []string{"SELECT COUNT(*) FROM (SELECT k FROM dtt GROUP BY k) s", "SELECT COUNT(*) FROM (SELECT DISTINCT k FROM dtt) s", "SELECT COUNT(DISTINCT k) FROM dtt",
+				"SELECT COUNT(*) FROM (SELECT k FROM dtt UNION SELECT k FROM dtt) s"} {
+				if v, err := pr.Query(q); err == nil {
+					if got := hc.StrOf(hc.ViewCell(v, 0, 0)); got != strconv.Itoa(len(fam)) {
+						o.Law("datetime_spellings_split_bucket", map[string]interface{}{"datetime_format": layout, "sql": q, "got": got, "want": len(fam)})
+					}
+				}
+			}
+			o.Count("datetime_format_bucket_checks")
+			pr.DisposeTable("dtt")
+			_ = pr.P.Tx.SetFlag(option.DatetimeFormatFlag, "")
+			setStrict(strict)
+		}
 		// an outer aggregate WITHOUT GROUP BY over a grouped derived table whose select list is exactly its source's
 		// fields: every row of the derived table is ONE row, however many records its group had — also when a
 		// WHERE leaves a single row (the whole-view grouping must not treat that row as "a group already")
